@@ -11,8 +11,11 @@ package mc
 
 import (
 	"fmt"
+	"os"
 	"runtime"
 	"strings"
+	"sync"
+	"sync/atomic"
 	"time"
 	"unsafe"
 )
@@ -250,6 +253,42 @@ type poisonT struct{}
 
 var poisonSentinel = &poisonT{}
 
+// Watchdog: a controlled execution in which some goroutine blocks in an operation the
+// scheduler does not model (an uninstrumented channel operation, a real lock, I/O that
+// never completes) holds the token forever and the process would hang silently. That is
+// a failure of the machinery, never a verdict about the property: after StallLimit of
+// wall-clock time without a single scheduling event the process dumps all goroutines
+// and exits with status 2 (no VIOLATION line, no evidence).
+var (
+	progress   atomic.Int64
+	running    atomic.Bool
+	watchOnce  sync.Once
+	StallLimit = 180 * time.Second
+)
+
+func startWatchdog() {
+	watchOnce.Do(func() {
+		go func() {
+			last, since := int64(-1), time.Now()
+			for {
+				time.Sleep(5 * time.Second)
+				p := progress.Load()
+				if !running.Load() || p != last {
+					last, since = p, time.Now()
+					continue
+				}
+				if time.Since(since) < StallLimit {
+					continue
+				}
+				buf := make([]byte, 1<<20)
+				n := runtime.Stack(buf, true)
+				fmt.Fprintf(os.Stderr, "INTERNAL (machinery, not a property verdict): controlled execution made no scheduling step for %s: a goroutine is blocked outside the controlled scheduler\n%s\n", StallLimit, buf[:n])
+				os.Exit(2)
+			}
+		}()
+	})
+}
+
 // Controlled reports whether a controlled execution is active.
 func Controlled() bool { return S != nil }
 
@@ -266,7 +305,9 @@ func Run(body func(), opt Options) *Result {
 	}
 	s := &Sched{opt: opt, chans: map[uintptr]*chanState{}, quiesce: make(chan struct{}), unwound: make(chan struct{}), res: &Result{}}
 	S = s
-	defer func() { S = nil }()
+	startWatchdog()
+	running.Store(true)
+	defer func() { running.Store(false); S = nil }()
 	g0 := s.newG(nil, body)
 	_ = g0
 	s.dispatch(nil)
@@ -358,6 +399,7 @@ func trimStack(st string) string {
 // goroutine giving up the token (nil for the explorer). If from is still alive
 // and is not the one chosen, dispatch waits until from is resumed.
 func (s *Sched) dispatch(from *G) {
+	progress.Add(1)
 	en := s.enabled[:0]
 	// a goroutine that yields (runtime.Gosched, time.Sleep, polling loops) goes to the end of the
 	// canonical order, so that waiting loops make progress under the default schedule
